@@ -204,10 +204,10 @@ def c03_program_search(check, sc, seed, n, stats):
 
 @st.composite
 def reset_program(draw):
-    path = draw(st.sampled_from(["stmt", "destroy", "reuse", "stmt_elem"]))
+    path = draw(st.sampled_from(["stmt", "destroy", "reuse", "stmt_elem", "reuse_stale"]))
     theta = draw(st.sampled_from([0.5, 1.0, 1.5, 2.0, 2.5]))
     return {"kind": "program", "path": path, "theta": theta, "seed": draw(st.integers(0, 2**31 - 1)),
-            "gate": draw(st.sampled_from(["direct", "fn", "static"]))}
+            "gate": draw(st.sampled_from(["direct", "fn", "static"])), "which": draw(st.sampled_from(["q", "r[0]", "r[1]"]))}
 
 
 def c04_source(case):
@@ -219,6 +219,11 @@ def c04_source(case):
         body = f"qubit[2] w; qubit b; ry(w[1], {t}); {cx.format(a='w[1]', b='b')} reset w[1]; bit r = measure b; echo(r);"
     elif case["path"] == "destroy":
         body = f"Holder o = new Holder(); qubit b; ry(o.q, {t}); {cx.format(a='o.q', b='b')} destroy o; bit r = measure b; echo(r);"
+    elif case["path"] == "reuse_stale":
+        # copies of the handles outlive the object: the released indices are disturbed (flipped, entangled with a live
+        # qubit) before they are handed out again; the re-allocated qubits must still read 0
+        body = (f"Holder o = new Holder(); qubit s = o.q; qubit s1 = o.r[0]; qubit s2 = o.r[1]; qubit b; ry(b, {t}); destroy o; "
+                f"x(s); {cx.format(a='b', b='s1')} x(s2); Holder p = new Holder(); bit r = measure p.{case.get('which', 'q')}; echo(r);")
     else:
         body = (f"Holder o = new Holder(); qubit b; ry(o.r[1], {t}); {cx.format(a='o.r[1]', b='b')} destroy o; "
                 f"Holder p = new Holder(); h(p.q); bit r = measure b; echo(r);")
@@ -238,10 +243,14 @@ def c04_program_oracle(check, case, sc, stats=None, K=300):
         return {"why": f"not all shots succeeded: {bad[:1] or r.json_lines()[:1]}", "source": src}
     ones = sum(int(s["echo"][0]) for s in shots)
     p1 = math.sin(float(np.float32(case["theta"])) / 2) ** 2
+    if case["path"] == "reuse_stale":
+        p1 = 0.0  # a re-allocated qubit reads 0 whatever happened to its index while it was free
     bound = Z * math.sqrt(K * p1 * (1 - p1)) + 1
     if stats is not None:
-        stats.record(case, 0.05 < p1 < 0.95, sample={"source": src[src.index("function main"):], "p1": p1, "ones": ones, "K": K},
+        stats.record(case, 0.05 < p1 < 0.95 or case["path"] == "reuse_stale", sample={"source": src[src.index("function main"):], "p1": p1, "ones": ones, "K": K},
                      tags=["program", "path_" + case["path"]])
+    if p1 == 0.0:
+        bound = 0.0
     if abs(ones - K * p1) > bound:
         return {"why": f"partner qubit measured 1 in {ones}/{K} shots after the target was reset through '{case['path']}', "
                        f"expected {K * p1:.1f} +- {bound:.1f}", "source": src}
